@@ -50,7 +50,7 @@ type Case struct {
 	Steps []Step     `json:"steps"`
 }
 
-var ops = []string{"body", "body_dep", "dep_func", "dep_func_samelen", "dep_method", "dep_method_samelen", "recvmix", "ignore_u1000", "two_files", "iface_use", "generic", "common", "test_body", "pure", "dep_pure", "plain", "nonnil", "pad", "local", "ignore", "initialism", "rangeint", "conf_pkg", "conf_root", "conf_outer", "conf_rm", "flag_go", "flag_tags", "flag_tests", "flag_checks", "goos", "patterns", "touch", "revert", "clock", "tagfile", "osfiles", "test_files", "gomod_go", "rerun"}
+var ops = []string{"body", "body_dep", "dep_func", "dep_func_samelen", "dep_method", "dep_method_samelen", "recvmix", "ignore_u1000", "two_files", "iface_use", "generic", "common", "test_body", "pure", "dep_pure", "plain", "extdep", "extdep_fact", "extdep_body", "nonnil", "pad", "local", "ignore", "initialism", "rangeint", "conf_pkg", "conf_root", "conf_outer", "conf_rm", "flag_go", "flag_tags", "flag_tests", "flag_checks", "goos", "patterns", "touch", "revert", "clock", "tagfile", "osfiles", "test_files", "gomod_go", "rerun"}
 
 // configuration files above the module root: mostly options other than
 // "checks" (the list of checks is applied after the cache, the other options
@@ -66,7 +66,7 @@ var outerConfs = append([]string{
 // the op alphabet by category of the property's quantifier
 var opCats = [][]string{
 	{"body", "pad", "local", "ignore", "ignore_u1000", "initialism", "rangeint", "two_files", "iface_use", "generic", "common", "recvmix", "test_body", "test_files", "tagfile", "osfiles", "plain"},
-	{"body_dep", "dep_func", "dep_func_samelen", "dep_method", "dep_method_samelen", "pure", "dep_pure", "nonnil"},
+	{"body_dep", "dep_func", "dep_func_samelen", "dep_method", "dep_method_samelen", "pure", "dep_pure", "nonnil", "extdep", "extdep_fact", "extdep_body"},
 	{"conf_pkg", "conf_root", "conf_outer", "conf_rm"},
 	{"flag_go", "flag_tags", "flag_tests", "flag_checks", "goos", "patterns", "gomod_go"},
 	{"revert", "touch", "clock", "rerun"},
@@ -204,6 +204,28 @@ func apply(st *state, step Step, history []state) int64 {
 		p.Pure = !p.Pure
 	case "dep_pure":
 		p.DepPure = !p.DepPure
+	case "extdep":
+		// a dependency from another, directory-replaced module comes or goes
+		if m.ExtDep == 0 {
+			m.ExtDep = 1 + a%2
+		} else {
+			m.ExtDep = 0
+		}
+	case "extdep_fact":
+		// its deprecation fact flips (same length)
+		switch m.ExtDep {
+		case 0:
+			m.ExtDep = 1
+		case 1:
+			m.ExtDep = 2
+		default:
+			m.ExtDep = 1
+		}
+	case "extdep_body":
+		if m.ExtDep == 0 {
+			m.ExtDep = 2
+		}
+		m.ExtBody++
 	case "plain":
 		// the package loses or regains everything that earns it facts
 		p.Plain = !p.Plain
@@ -368,6 +390,9 @@ func execute(c Case, rec *tapeRec) batch.Result {
 		if st.mod.OuterConf == "" {
 			os.Remove(filepath.Join(outer, "staticcheck.conf"))
 		}
+		if st.mod.ExtDep == 0 {
+			os.RemoveAll(filepath.Join(outer, "extdep"))
+		}
 		if step.Op == "touch" {
 			t := time.Now()
 			os.Chtimes(filepath.Join(dir, fmt.Sprintf("p%d/p%d.go", step.Pkg%len(st.mod.Pkgs), step.Pkg%len(st.mod.Pkgs))), t, t)
@@ -504,6 +529,9 @@ func (engine) Generate(seed uint64, index int, tier string) json.RawMessage {
 	// make sure facts flow: package 0 is imported by someone
 	if len(m.Pkgs) > 1 && len(m.Pkgs[1].Imports) == 0 {
 		m.Pkgs[1].Imports = []int{0}
+	}
+	if r.P(250) {
+		m.ExtDep = 1 + r.N(2)
 	}
 	// the first run populates the cache: vary the conditions under which that
 	// happens, not only the later steps
